@@ -611,7 +611,9 @@ class GraphBuilder(BuilderBase):
         if isinstance(value, (int, float, bool, str)):
             if dtype is None:
                 dtype = _PYTHON_TYPE_TO_DTYPE.get(type(value))
-            cache_key = (value, dtype)
+            # Key on repr(): Python's == identifies 0.0 with -0.0 (and nan != nan), which
+            # would hand out an initializer holding a different tensor or create duplicates.
+            cache_key = (repr(value), dtype)
             if cache_key in root._constant_cache:
                 return root._constant_cache[cache_key]
             type_suffix = _dtype_suffix(dtype) if dtype is not None else ""
@@ -628,7 +630,7 @@ class GraphBuilder(BuilderBase):
         ):
             if dtype is None:
                 dtype = _PYTHON_TYPE_TO_DTYPE.get(type(value[0]))
-            cache_key = (tuple(value), dtype)
+            cache_key = (repr(tuple(value)), dtype)
             if cache_key in root._constant_cache:
                 return root._constant_cache[cache_key]
             type_suffix = _dtype_suffix(dtype) if dtype is not None else ""
